@@ -7,7 +7,32 @@ requests
   nburn niter=<n> count=<n|none> frac=<f…|none>          → nb=<n> | err:algo
   power p=<f…>                                            → ok | err:algo
   run nb=<n> power=<f…> s=<f…,f…,…>                      → S=<f,…> burn=<bits>
+  ctor niter=<int> count=<int|none> frac=<f…|none> p=<f…> → nb=<int> warn=<0|1> | err:algo | err:other:ValueError | err:other:OverflowError
+  weights nb=<n> power=<f…> n=<n>                         → rows k=1…n of weight k j (j=1…n) on doubles, `;`-separated
+  rund nb=<int> power=<f…> dtype=f64|f32 s=<it;it;…>      → S=<it;it;…> burn=<bits> err=<none|AttributeError|KeyError|RuntimeError>
+        it = key:v,v,…|key:v,…  (`~` = empty dict, `_` = empty tensor); float32 values travel as the double of equal value
 -/
+
+def parseDict {β} (pv : String → Option β) (s : String) : Option (Dict String β) :=
+  if s == "~" then some [] else
+  (s.splitOn "|").mapM (fun ent =>
+    match ent.splitOn ":" with
+    | [k, vs] => (fun l => (k, l)) <$> parseList pv vs
+    | _ => none)
+
+def fmtDict {β} (fv : β → String) (d : Dict String β) : String :=
+  if d.isEmpty then "~" else "|".intercalate (d.map (fun kv => s!"{kv.1}:{fmtList fv kv.2}"))
+
+def fmtRunErr : Option RunErr → String
+  | none => "none"
+  | some .attributeError => "AttributeError"
+  | some .keyError => "KeyError"
+  | some .runtimeError => "RuntimeError"
+
+def fmtRunOut {β} (fv : β → String) (o : RunOut String β) : String :=
+  let S := if o.calls.isEmpty then "_" else ";".intercalate (o.calls.map (fun c => fmtDict fv c.1))
+  s!"S={S} burn={fmtList (fun (c : Dict String β × Bool) => fmtBool c.2) o.calls} err={fmtRunErr o.err}"
+
 def handle (line : String) : String :=
   match line.splitOn " " with
   | "nburn" :: args =>
@@ -31,6 +56,41 @@ def handle (line : String) : String :=
       let ss ← (kv args "s") >>= parseList parseFloat
       let r := run (stepSizeF p) nb ss
       some s!"S={fmtList (fun (x : Float × Bool) => fmtFloat x.1) r} burn={fmtList (fun (x : Float × Bool) => fmtBool x.2) r}").getD "bad-request"
+  | "ctor" :: args =>
+    (do
+      let n ← (kv args "niter") >>= parseInt
+      let c ← kv args "count"
+      let f ← kv args "frac"
+      let p ← (kv args "p") >>= parseFloat
+      let count ← if c == "none" then some none else some <$> parseInt c
+      let frac ← if f == "none" then some none else some <$> parseFloat f
+      match ctorZ n count frac p with
+      | .ok nb => some s!"nb={nb} warn={fmtBool (warnsDeprecated count frac)}"
+      | .error .algoInput => some "err:algo"
+      | .error .valueError => some "err:other:ValueError"
+      | .error .overflowError => some "err:other:OverflowError").getD "bad-request"
+  | "weights" :: args =>
+    (do
+      let nb ← (kv args "nb") >>= parseNat
+      let p ← (kv args "power") >>= parseFloat
+      let n ← (kv args "n") >>= parseNat
+      let rows := (List.range n).map (fun k => (List.range n).map (fun j =>
+        weight (stepSizeF p) (complF p) nb (k + 1) (j + 1)))
+      some (fmtList2 fmtFloat rows)).getD "bad-request"
+  | "rund" :: args =>
+    (do
+      let nb ← (kv args "nb") >>= parseInt
+      let p ← (kv args "power") >>= parseFloat
+      let dt ← kv args "dtype"
+      let s ← kv args "s"
+      let its := if s == "_" then [] else s.splitOn ";"
+      if dt == "f64" then
+        let ss ← its.mapM (parseDict parseFloat)
+        some (fmtRunOut fmtFloat (runD (stepSizeF p) (complF p) nb ss))
+      else if dt == "f32" then
+        let ss ← its.mapM (parseDict (fun x => Float.toFloat32 <$> parseFloat x))
+        some (fmtRunOut (fun (x : Float32) => fmtFloat x.toFloat) (runD (stepSizeF32 p) (complF32 p) nb ss))
+      else none).getD "bad-request"
   | _ => "bad-request"
 
 def main : IO Unit := loop handle
